@@ -38,7 +38,7 @@ np.seterr(all="ignore")
 # repair of safe_assign_column (fix 6654639 in /repo) every container is CFloat: that is the default now;
 # PD_INT_STORED="i64,polarsint" restores the pre-fix model (used to demonstrate the finding).
 INT_STORED = tuple(c for c in os.environ.get("PD_INT_STORED", "").split(",") if c)
-CONTAINERS = ("f64", "i64", "list", "listint", "polars", "polarsint", "polarsmix", "polarsuint")
+CONTAINERS = ("f64", "i64", "list", "listint", "listnd", "polars", "polarsint", "polarsmix", "polarsuint")
 INT_DATA = ("i64", "listint", "polarsint", "polarsmix", "polarsuint")
 JUDGE_TOL = Fraction(1, 10 ** 9)
 
@@ -59,6 +59,8 @@ def build_X(d):
         return [[float(v) for v in r] for r in X]
     if c == "listint":
         return [[int(v) for v in r] for r in X]
+    if c == "listnd":      # a list of rows, every row a one-dimensional float64 ndarray
+        return [np.array([float(v) for v in r], dtype=np.float64) for r in X]
     if c == "polars":
         return pl.DataFrame({f"x{k}": pl.Series([float(r[k]) for r in X], dtype=pl.Float64) for k in range(p)})
     if c == "polarsint":
@@ -105,6 +107,8 @@ def unchanged(a, b):
         return a.dtype == b.dtype and a.equals(b)
 
     def same(u, v):
+        if isinstance(u, np.ndarray):
+            return isinstance(v, np.ndarray) and u.dtype == v.dtype and u.shape == v.shape and u.tobytes() == v.tobytes()
         if isinstance(u, list):
             return isinstance(v, list) and len(u) == len(v) and all(same(x, y) for x, y in zip(u, v))
         return type(u) is type(v) and u == v
@@ -635,6 +639,8 @@ def search(seed, budget):
     tier1 = []
     for container, X, grid, gridc in itertools.product(CONTAINERS, Xs, grids, ["ndarray", "list", "series"]):
         n, p = len(X), len(X[0])
+        if container == "polarsuint" and any(v < 0 for r in X for v in r):
+            continue               # unsigned columns hold non-negative data only
         for j, wk, sub, pk in itertools.product(range(p), range(3), (False, True), range(3)):
             if sub and n < 2:
                 continue
@@ -647,7 +653,7 @@ def search(seed, budget):
             d = dict(container=container, X=XX, j=j, grid=grid, w=w, gridc=gridc, wc=["ndarray", "list", "series"][wk],
                      ret="ndarray", kind=None, pred=ps)
             if sub:
-                d.update(n_max=n - 1, seed=3, rngkind="int")
+                d.update(n_max=n - 1, seed=(0 if (j + wk + pk) % 2 == 0 else 3), rngkind="int")     # the seed 0 is a seed like any other
                 if w is not None and all(w[i] == 0 for i in draw_indices(d)):
                     continue
             tier1.append(d)
@@ -657,6 +663,12 @@ def search(seed, budget):
         tier1 = tier1[:(2 * budget) // 3]
     for d in tier1:
         consider(d)
+    # n_max=None given explicitly with more than 1000 rows: every row is used; the seed 0 with sub-sampling of many rows
+    colr = [((7 * i) % 41 - 20) / 2 for i in range(1003)]
+    consider(dict(container="f64", X=[[v] for v in colr], j=0, grid=[0.25, 7.0], w=[float(i % 4) for i in range(1003)], gridc="ndarray", wc="ndarray",
+                  ret="ndarray", kind=None, n_max=None, seed=5, rngkind="int", pred=dict(c0=1.0, cs=[0.5], d=0.25, a=0, b=0, h=3.0, s=0, t=0.25, kind="full")))
+    consider(dict(container="f64", X=[[v] for v in colr[:40]], j=0, grid=[0.25, 7.0], w=None, gridc="ndarray", wc="ndarray",
+                  ret="ndarray", kind=None, n_max=7, seed=0, rngkind="int", pred=dict(c0=1.0, cs=[0.5], d=0.25, a=0, b=0, h=3.0, s=0, t=0.25, kind="full")))
     # tier 2: seeded random, same generator as the correspondence run (+ list grids for int polars)
     rng = random.Random(seed)
     while tried < budget:
